@@ -38,7 +38,7 @@ ASSUMPTIONS = [
 
 HC = dict(conj=False, xi_max=10.0, mpc_lim=0.0, mpd_lim=1e9, cov_max=1e9)
 L_ALL = (2, 3, 4, 5, 8)
-FS_ALL = (1.0, 100.0, 1000.0)
+FS_ALL = (1.0, 102.4, 1000.0)          # a non-integer sampling rate (2.56 x 40 Hz analyser) instead of 100
 N_ALL = (800, 1500)
 BRO_ALL = (0, 1, 3)
 METHODS = ("cov_mm", "dat")
